@@ -769,6 +769,26 @@ RCP<const Basic> load_basic(Archive &ar, RCP<const FunctionSymbol> &)
     return make_rcp<const FunctionSymbol>(name, std::move(vec));
 }
 template <class Archive>
+RCP<const Basic> load_basic(Archive &ar, RCP<const Max> &)
+{
+    vec_basic args;
+    ar(args);
+    if (args.empty()) {
+        throw SerializationError("invalid Max: no arguments");
+    }
+    return make_rcp<const Max>(std::move(args));
+}
+template <class Archive>
+RCP<const Basic> load_basic(Archive &ar, RCP<const Min> &)
+{
+    vec_basic args;
+    ar(args);
+    if (args.empty()) {
+        throw SerializationError("invalid Min: no arguments");
+    }
+    return make_rcp<const Min>(std::move(args));
+}
+template <class Archive>
 RCP<const Basic> load_basic(Archive &ar, RCP<const FunctionWrapper> &)
 {
     throw SerializationError(StreamFmt()
